@@ -410,7 +410,9 @@ theorem decDmrs_encDmrsToks (o : Opts) (d : DMRS) (hwf : d.WF) (hx : Expressible
   rw [hshape]
   have hattrs := decAttrs_enc o d t r htk
   rw [← hitems] at hattrs
-  have hitemsdec := decItems_enc o d.nodes d.links hx.1 hx.2 rest _ (items_length o d.nodes d.links rest)
+  have hitemsdec := decItems_enc o d.nodes d.links hx.1 hx.2 rest
+    ((d.nodes.flatMap (encNodeToks o) ++ (d.links.flatMap encLinkToks ++ tRBRACE :: rest)).length + 1)
+    (by have := items_length o d.nodes d.links rest; omega)
   have hmk := fun i => mkDMRS_of_wf d.top d.index (d.nodes.map (viewNodeS o)) d.links
     (if o.lnk && d.lnk.truthy then d.lnk else .unspec) (if o.lnk then d.surface else none) i hwf
   unfold decDmrs
